@@ -568,7 +568,7 @@ impl Feig {
     #[verifier::exec_allows_no_decreases_clause]
     //@ end
 
-    //@ fn src:zvt_feig_terminal/src/feig.rs | impl Feig | read_card | all-loops props=C10,~C18,~C20
+    //@ fn src:zvt_feig_terminal/src/feig.rs | impl Feig | read_card | all-loops strviews props=C10,~C18,~C20
         ensures
             same_client(final(self), old(self)),
             one_more(final(self).socket.log(), old(self).socket.log()),
